@@ -18,8 +18,8 @@ RULE = ("(i) every byte string of length <=3 (thorough <=4) over a 12-symbol JSO
         "file, offered as .json and as .yaml, and a list of YAML specials; (ii) every JSON value of depth <=2 over a small atom and key "
         "alphabet offered as the document; (iii) every single node fault (17 junk values, deletion, duplication under a sibling key) of 3 "
         "valid base documents (thorough: pairs on one base) (30 junk values incl. enums of floats/booleans/lists, inf/nan defaults, references urlparse refuses; 4 bases) and cyclic $ref shapes; (iv) every document of the other checks' spaces "
-        "(generate only); seam: the real typer CLI via CliRunner for (i)-(iii); oracle: no escaping exception, termination, exit "
-        "status <=> error-level diagnostics (and --fail-on-warning), no output when the document is rejected; (v) YAML-native scalars (dates, timestamps, binary, sets, inf/nan) at 12 value slots, version strings of every JSON shape, YAML alias graphs (cyclic / re-used / deep), scalar tags whose constructor fails (!!int / !!float / !!bool / bad timestamps), schemas nested 10..600 levels deep through items / properties / allOf / oneOf / additionalProperties, date and number defaults no Python value can hold, the same YAML-native values (plus a self-containing node and non-UTF-8 bytes) inside schemas / parameters / bodies / responses that are refused and printed back in the diagnostic")
+        "(generate only), post hooks (single hooks and ordered pairs of succeeds / fails / missing tool x silent / UTF-8 / non-UTF-8 output); seam: the real typer CLI via CliRunner for (i)-(iii); oracle: no escaping exception, termination, exit "
+        "status <=> error-level diagnostics (and --fail-on-warning), no output when the document is rejected; (v) YAML-native scalars (dates, timestamps, binary, sets, inf/nan) at 12 value slots, version strings of every JSON shape, YAML alias graphs (cyclic / re-used / deep), every reference graph over 3 (thorough 4) reusable request bodies / responses / parameters (each refers to any of them, is real, or dangles), scalar tags whose constructor fails (!!int / !!float / !!bool / bad timestamps), schemas nested 10..600 levels deep through items / properties / allOf / oneOf / additionalProperties, date and number defaults no Python value can hold, the same YAML-native values (plus a self-containing node and non-UTF-8 bytes) inside schemas / parameters / bodies / responses that are refused and printed back in the diagnostic")
 FLOOR = 0.3
 ASSUMPTIONS = ["typer's CliRunner reproduces the command's behaviour", "a per-case watchdog (30 s vs ~15 ms typical) detects hangs; a timeout is re-run alone with a tenfold limit by the confirmation step"]
 
@@ -147,6 +147,27 @@ def _cycle_docs():
                                           components={"parameters": {"A": {"$ref": "#/components/parameters/B"}, "B": {"$ref": "#/components/parameters/A"}}})
 
 
+def _ref_graph_docs(n):
+    """Every functional graph over n reusable components of one table (requestBodies / responses / parameters): each component either
+    refers to one of the n (itself included), is a real component, or refers to a component that does not exist; the operation enters at A.
+    Covers self loops, cycles of every length, cycles reached through a tail, chains ending in a real or a missing component."""
+    names = "ABCD"[:n]
+    tables = {
+        "requestBodies": ({"content": {"application/json": {"schema": {"type": "object"}}}},
+                          lambda ref: {"/x": {"post": {"operationId": "postX", "requestBody": ref, "responses": {"204": {"description": "n"}}}}}),
+        "responses": ({"description": "d", "content": {"application/json": {"schema": {"type": "string"}}}},
+                      lambda ref: {"/x": {"get": {"operationId": "getX", "responses": {"200": ref}}}}),
+        "parameters": ({"name": "q", "in": "query", "schema": {"type": "string"}},
+                       lambda ref: {"/x": {"get": {"operationId": "getX", "parameters": [ref], "responses": {"204": {"description": "n"}}}}}),
+    }
+    for table, (real, paths) in tables.items():
+        for targets in itertools.product(list(names) + ["real", "missing"], repeat=n):
+            comps = {}
+            for nm, t in zip(names, targets):
+                comps[nm] = copy.deepcopy(real) if t == "real" else {"$ref": f"#/components/{table}/{'Nope' if t == 'missing' else t}"}
+            yield f"{table}:" + ",".join(f"{nm}>{t}" for nm, t in zip(names, targets)), gen.base_doc(None, paths=paths({"$ref": f"#/components/{table}/A"}), components={table: comps})
+
+
 def _foreign_docs(tier):
     """(iv) documents of the other checks' spaces, generate only."""
     import importlib
@@ -268,6 +289,13 @@ def _nested(kind, n):
     return {"openapi": "3.1.0", "info": {"title": "t", "version": "1"}, "paths": {}, "components": {"schemas": {"D": {"type": "object", "properties": {"q": s}}}}}
 
 
+HOOKS = {   # name: (shell command, outcome class)
+    "ok-silent": ("true", "ok"), "ok-utf8": ("printf 'h\\303\\251llo'", "ok"), "ok-nonutf8-stdout": ("printf '\\377\\376raw'", "ok"),
+    "ok-nonutf8-stderr": ("printf '\\377\\376raw' >&2", "ok"), "fail-silent": ("false", "fail"), "fail-utf8": ("ls /nonexistent-c06-dir", "fail"),
+    "fail-nonutf8": ("printf '\\377\\376raw' >&2; false", "fail"), "fail-nonutf8-stdout": ("printf '\\377raw'; false", "fail"), "missing-tool": ("no_such_tool_c06 --fix", "missing"),
+}
+
+
 def _nesting_texts():
     """(name, JSON text) - written without json.dumps, which has a recursion limit of its own"""
     for kind in NEST_KINDS:
@@ -335,14 +363,22 @@ def cases(tier):
                 yield {"labels": [f"node-fault-pairs={bname}", f"chunk={i // 150}"], "payload": {"mode": "faultpairs", "base": bname, "pairs": pairs[i:i + 150]}}
     cyc = [[n, d] for n, d in _cycle_docs()]
     yield {"labels": ["cyclic-refs"], "payload": {"mode": "docs", "docs": [d for _n, d in cyc], "names": [n for n, _d in cyc], "fail_on_warning": False, "what": "cycle"}}
+    rg = list(_ref_graph_docs(3 if tier == "quick" else 4))
+    for i in range(0, len(rg), 100):
+        yield {"labels": ["reference-graphs", f"chunk={i // 100}"], "payload": {"mode": "docs", "docs": [d for _n, d in rg[i:i + 100]], "names": [n for n, _d in rg[i:i + 100]], "fail_on_warning": False, "what": "ref-graph"}}
     yield {"labels": ["cyclic-refs", "fail-on-warning"], "payload": {"mode": "docs", "docs": [d for _n, d in cyc], "names": [n for n, _d in cyc], "fail_on_warning": True, "what": "cycle"}}
     # YAML documents whose example / default / enum / const values are YAML-native scalars (dates, timestamps, binary, sets, .inf, .nan)
     for kind in NEST_KINDS:
         yield {"labels": [f"nesting-depth={kind}"], "payload": {"mode": "nesting", "kind": kind}}
     yield {"labels": ["yaml-native-values"], "payload": {"mode": "yamlnative", "fail_on_warning": False}}
     yield {"labels": ["yaml-native-values", "fail-on-warning"], "payload": {"mode": "yamlnative", "fail_on_warning": True}}
-    # CLI option faults
+    # CLI option faults; post hooks: every single hook and ordered pair of {succeeds, fails, missing tool} x {silent, UTF-8, non-UTF-8 output}
     yield {"labels": ["cli-options"], "payload": {"mode": "cli-options"}}
+    # post hooks: every single hook and every ordered pair of {succeeds, fails, missing tool} x {silent, UTF-8 output, output that is not UTF-8}
+    names = list(HOOKS)
+    combos = [[h] for h in names] + [[a, b] for a in names for b in names]
+    for i in range(0, len(combos), 12):
+        yield {"labels": ["post-hooks", f"chunk={i // 12}"], "payload": {"mode": "post-hooks", "combos": combos[i:i + 12], "fail_on_warning": (i // 12) % 2 == 1}}
     # (iv) other checks' documents
     chunk, src = [], None
     for n, d, o in _foreign_docs(tier):
@@ -488,6 +524,41 @@ def run_case(p):
             viol += v
             outcomes[o] += 1
             steps += 1
+    elif mode == "post-hooks":
+        from checks import c05
+        src = _write("c06in.json", json.dumps(c05.base1()).encode())
+        runner, app, _cfg = _cli()
+        for combo in p["combos"]:
+            cfgp = gen.scratch_root() / "c06hooks.yml"
+            cfgp.write_text("post_hooks: " + json.dumps([HOOKS[h][0] for h in combo]) + "\n")
+            out = gen.fresh_dir("cli")
+            fow = p.get("fail_on_warning", False)
+            name = "+".join(combo)
+            _CURRENT[0] = f"post-hooks {name}"
+            try:
+                r = runner.invoke(app, ["generate", "--path", str(src), "--meta", "none", "--config", str(cfgp), "--output-path", str(out)] + (["--fail-on-warning"] if fow else []))
+                steps += 1
+                classes = [HOOKS[h][1] for h in combo]
+                if r.exception is not None and not isinstance(r.exception, SystemExit):
+                    info = gen.crash_info(r.exception)
+                    viol.append({"oracle": "crash", "site": info["where"], "key": f"{info['type']}/post-hook:{'+'.join(sorted(set(combo)))}", "detail": f"post hooks {combo}: {info['type']}: {info['msg']}"})
+                    outcomes["hooks:crash"] += 1
+                    continue
+                expect_fail = "fail" in classes or (fow and "missing" in classes)
+                if (r.exit_code != 0) != expect_fail:
+                    viol.append({"oracle": "exit-status", "site": "cli", "key": f"post-hooks/exit{r.exit_code}/{'+'.join(sorted(set(classes)))}{'/fail-on-warning' if fow else ''}",
+                                 "detail": f"post hooks {combo}: exit {r.exit_code}, expected {'non-zero' if expect_fail else '0'} (fail_on_warning={fow})"})
+                if not (out / "client.py").exists():
+                    viol.append({"oracle": "no-output", "site": "cli", "key": "post-hooks/missing", "detail": f"post hooks {combo}: the client was not written"})
+                for h, c in zip(combo, classes):
+                    tool = HOOKS[h][0].split(" ")[0]
+                    if c == "fail" and f"{tool} failed" not in (r.output or ""):
+                        viol.append({"oracle": "diagnostic-not-printed", "site": "cli", "key": f"post-hooks/{c}", "detail": f"post hooks {combo}: failing hook {h} is not reported: {(r.output or '')[-200:]!r}"})
+                    if c == "missing" and "is not in PATH" not in (r.output or ""):
+                        viol.append({"oracle": "diagnostic-not-printed", "site": "cli", "key": f"post-hooks/{c}", "detail": f"post hooks {combo}: missing tool of {h} is not reported"})
+                outcomes[f"hooks:exit{r.exit_code}"] += 1
+            finally:
+                shutil.rmtree(out, ignore_errors=True)
     elif mode == "cli-options":
         from checks import c05
         src = _write("c06in.json", json.dumps(c05.base1()).encode())
